@@ -1,7 +1,8 @@
 //! C17: drives the real job table (`Shell::jobs_mut()`: add through `cmd &`, `poll`, `wait_all`,
 //! the `wait %n` builtin) with op sequences whose task completions are controlled through
 //! FIFOs, and prints the table after every op in the format of the model (Conc/EntryJobs.v).
-//! Case fields: <cur|fix> (ignored by the code) then ops: A | F <task> | P | W | J <id>.
+//! Case fields: <cur|fix> (ignored by the code) then ops: A | E | F <task> | P | W | J <id> | M <n> <spec>*n
+//! (E: like A but the job ends with an expansion error; M: `wait %spec...` with specs <number>, + or -).
 //! Job k (k-th `A`, numbered from 1) runs `{ cat <fifo k> >/dev/null; echo x > <marker k>; } &`;
 //! `F k` opens and closes the FIFO for writing, i.e. lets task k finish.
 use crate::util::{hex, panic_msg, unhex_str};
@@ -100,14 +101,17 @@ async fn run_case(k: usize, c: &[String]) -> Vec<String> {
     let mut i = 0;
     while i < ops.len() {
         match ops[i].as_str() {
-            "A" => {
+            "A" | "E" => {
+                // E: the job ends with an expansion error after its marker is written
                 let t = fresh;
                 fresh += 1;
                 let _ = std::process::Command::new("mkfifo").arg(fifo(&dir, t)).status();
+                let tail = if ops[i] == "E" { " : ${nope_such_var:?gone};" } else { "" };
                 let script = format!(
-                    "{{ cat {} >/dev/null; echo x > {}; }} &",
+                    "{{ cat {} >/dev/null; echo x > {};{} }} &",
                     fifo(&dir, t).display(),
-                    marker(&dir, t).display()
+                    marker(&dir, t).display(),
+                    tail
                 );
                 let _ = shell.run_string(script, &si, &params).await;
                 out.push(show_table(&shell));
@@ -192,32 +196,66 @@ async fn run_case(k: usize, c: &[String]) -> Vec<String> {
                 out.push(line);
                 i += 1;
             }
-            "J" => {
-                let id: usize = ops.get(i + 1).and_then(|s| s.parse().ok()).unwrap_or(0);
-                let target = shell.jobs().jobs.iter().find(|j| j.id == id).map(task_of);
-                let mut th = None;
-                if let Some(t) = target {
-                    if t != 0 && !released.contains(&t) {
-                        let d = dir.clone();
-                        th = Some(std::thread::spawn(move || {
-                            std::thread::sleep(std::time::Duration::from_millis(20));
-                            release(&d, t);
-                        }));
-                        released.insert(t);
+            "J" | "M" => {
+                // `wait %s1 %s2 ...`: J <id> is M 1 <id>. The harness resolves the specs on its own (by job
+                // number / by the current and previous marks) to know which tasks to let finish and which
+                // markers must exist when `wait` returns.
+                let (specs, used): (Vec<String>, usize) = if ops[i] == "J" {
+                    (vec![ops.get(i + 1).cloned().unwrap_or_default()], 2)
+                } else {
+                    let n: usize = ops.get(i + 1).and_then(|s| s.parse().ok()).unwrap_or(0);
+                    ((0..n).filter_map(|k| ops.get(i + 2 + k).cloned()).collect(), 2 + n)
+                };
+                let mut targets: Vec<usize> = vec![];
+                for sp in &specs {
+                    let found = match sp.as_str() {
+                        "+" => shell.jobs().jobs.iter().find(|j| j.is_current()).map(task_of),
+                        "-" => shell.jobs().jobs.iter().find(|j| j.is_prev()).map(task_of),
+                        num => {
+                            let id: usize = num.parse().unwrap_or(0);
+                            shell.jobs().jobs.iter().find(|j| j.id == id).map(task_of)
+                        }
+                    };
+                    if let Some(t) = found {
+                        if t != 0 {
+                            targets.push(t);
+                        }
                     }
                 }
-                let _ = shell.run_string(format!("wait %{id}"), &si, &params).await;
-                let mut line = show_table(&shell);
-                if let Some(t) = target {
-                    if t != 0 && !marker(&dir, t).exists() {
-                        line.push_str(&format!("!unfinished:{t}"));
+                let todo: Vec<usize> = targets.iter().copied().filter(|t| !released.contains(t)).collect();
+                let d = dir.clone();
+                let td = todo.clone();
+                let th = std::thread::spawn(move || {
+                    std::thread::sleep(std::time::Duration::from_millis(20));
+                    for t in td {
+                        release(&d, t);
                     }
+                });
+                for t in &todo {
+                    released.insert(*t);
                 }
-                if let Some(th) = th {
-                    let _ = th.join();
+                let cmd = format!(
+                    "wait {}",
+                    specs.iter().map(|s| format!("%{s}")).collect::<Vec<_>>().join(" ")
+                );
+                let st = match shell.run_string(cmd, &si, &params).await {
+                    Ok(r) => u8::from(r.exit_code).to_string(),
+                    Err(_) => "!err".to_string(),
+                };
+                let mut line = format!("s={st}");
+                let missing: Vec<String> = targets
+                    .iter()
+                    .filter(|t| !marker(&dir, **t).exists())
+                    .map(ToString::to_string)
+                    .collect();
+                if !missing.is_empty() {
+                    line.push_str(&format!("!unfinished:{}", missing.join(",")));
                 }
+                let _ = th.join();
+                line.push('|');
+                line.push_str(&show_table(&shell));
                 out.push(line);
-                i += 2;
+                i += used;
             }
             _ => {
                 out.push("!badop".to_string());
